@@ -145,8 +145,8 @@ CHECKS = {
         design="DESIGN.md §4 C16",
     ),
     "C17": dict(
-        rules="R17.1-R17.13",
-        what="command-line dests vs Options attributes; converter completeness for documented config keys; ini/toml converter table agreement and inversion prefixes; inline comments and per-module sections routed through parse_section; each section applied by its own apply_changes call; precedence orderings by construction (config file before command line, structured before unstructured sections, inline on top); the command line's --strict step is conditional only on the command-line namespace; every list option that apply_changes replays is reset by each section; every structured section is built on clone_for_module(key), whatever the shape of the key (R17.13)",
+        rules="R17.1-R17.14",
+        what="command-line dests vs Options attributes; converter completeness for documented config keys; ini/toml converter table agreement and inversion prefixes; inline comments and per-module sections routed through parse_section; each section applied by its own apply_changes call; precedence orderings by construction (config file before command line, structured before unstructured sections, inline on top); the command line's --strict step is conditional only on the command-line namespace; every list option that apply_changes replays is reset by each section; every structured section is built on clone_for_module(key), whatever the shape of the key (R17.13); a pattern named again in a later section moves to the end of per_module_options, whose order is the precedence of unstructured patterns (R17.14)",
         quant="options x sources x conflicting pairs",
         technique="table/AST cross-check of main.define_options, config_parser tables, Options.__init__ and docs/source/config_file.rst",
         note="The precedence algorithm among sections is value-level and not decided. R17.5 (docs wording) is informational only.",
